@@ -16,7 +16,7 @@ var knownImports = map[string]string{
 	"hash": "github.com/csgura/fp/hash", "monoid": "github.com/csgura/fp/monoid", "clone": "github.com/csgura/fp/clone",
 	"show": "github.com/csgura/fp/show", "hlist": "github.com/csgura/fp/hlist",
 	"strings": "strings", "sort": "sort", "fmt": "fmt", "os": "os", "reflect": "reflect", "testing": "testing",
-	"debug": "runtime/debug", "unsafe": "unsafe",
+	"debug": "runtime/debug", "unsafe": "unsafe", "sync": "sync", "syscall": "syscall", "time": "time", "strconv": "strconv",
 }
 
 var identDot = regexp.MustCompile(`\b([a-z][a-zA-Z0-9]*)\.[A-Za-z_]`)
@@ -141,9 +141,11 @@ func leafOverrideExpr(o *Override, b string) string {
 	case o.TC == Eq && o.Variant == "fold":
 		return "eq.New(strings.EqualFold)"
 	case o.TC == Ord && o.Variant == "fold":
-		return "ord.FromCompare(func(a, b string) int { return strings.Compare(strings.ToLower(a), strings.ToLower(b)) })"
+		return "ord.FromCompare(func(a, b string) int {\n\tXOrdTick()\n\treturn strings.Compare(strings.ToLower(a), strings.ToLower(b))\n})"
 	case o.TC == Ord && o.Variant == "rev":
-		return fmt.Sprintf("ord.FromCompare(func(a, b %s) int {\n\tswitch {\n\tcase a > b:\n\t\treturn -1\n\tcase a < b:\n\t\treturn 1\n\t}\n\treturn 0\n})", b)
+		return fmt.Sprintf("ord.FromCompare(func(a, b %s) int {\n\tXOrdTick()\n\tswitch {\n\tcase a > b:\n\t\treturn -1\n\tcase a < b:\n\t\treturn 1\n\t}\n\treturn 0\n})", b)
+	case o.TC == Ord && o.Variant == "std":
+		return fmt.Sprintf("ord.FromCompare(func(a, b %s) int {\n\tXOrdTick()\n\tswitch {\n\tcase a < b:\n\t\treturn -1\n\tcase a > b:\n\t\treturn 1\n\t}\n\treturn 0\n})", b)
 	case o.TC == Hashable && o.Variant == "fold":
 		return "hash.New(eq.New(strings.EqualFold), XFoldHash)"
 	case o.TC == Monoid && o.Variant == "sum":
@@ -219,6 +221,22 @@ func overrideExpr(o *Override, from *Pkg) (typ string, expr string) {
 	return tcn + "[" + named(o.Decl).Src(from) + "]", namedOverrideExpr(o, from)
 }
 
+const ordTickSrc = `
+// Logical clock of the hand-written Ord instances of basic types: every component comparison
+// ticks; with a budget armed (by the law test) exceeding it panics with XOrdBudgetExceeded.
+var XOrdTicks, XOrdBudget int64
+
+type XOrdBudgetExceeded struct{}
+
+func XOrdTick() {
+	XOrdTicks++
+	if XOrdBudget > 0 && XOrdTicks > XOrdBudget {
+		panic(XOrdBudgetExceeded{})
+	}
+}
+
+`
+
 const sortedSeqSrc = `
 // @fp.ImportGiven
 var _ ord.Derives[fp.Ord[any]]
@@ -292,6 +310,9 @@ func emitPkg(p *Pkg) string {
 	}
 	if needFold {
 		b.WriteString(foldHashSrc)
+	}
+	if p.hasOrdTick() {
+		b.WriteString(ordTickSrc)
 	}
 	for _, x := range p.Derives {
 		if x.Implicit {
